@@ -284,13 +284,13 @@ Section Propagation.
         destruct a1; auto with notok.
         skip.
         match goal with |- context [match ?l ++ ?r with _ => _ end] => destruct (l ++ r) end; auto with notok.
-        skip. skip. skip. skip. here.
-        apply (iterM_notok_j J HJ); [intros; prs| |assumption]. intros s1 W1. cbn [snd]. here. now apply IHe.
+        skip. skip. skip. here.
+        apply (foldM_notok_j J HJ); [intros; prs| |assumption]. intros b0 s1 W1. cbn [snd]. here. now apply IHe.
       + (* XColl *)
         cbn [Ctx.plug_e Tc.afix astep r_expr]. unfold expr_body. here.
         destruct k.
-        * skip. here. apply (mapM_notok_j J HJ); [intros; prs| |assumption]. intros s1 W1. here. now apply IHe.
-        * skip. skip. here. apply (iterM_notok_j J HJ); [intros; prs| |assumption]. intros s1 W1. here. now apply IHe.
+        * here. apply (foldM_notok_j J HJ); [intros; prs| |assumption]. intros b0 s1 W1. here. now apply IHe.
+        * skip. here. apply (foldM_notok_j J HJ); [intros; prs| |assumption]. intros b0 s1 W1. here. now apply IHe.
     - (* statements *)
       pose proof (afix_pres kinds G PG f) as PA.
       destruct C; cbn [Ctx.at_s] in Hat.
